@@ -38,6 +38,8 @@ func runC15(c *Ctx, r *Report) {
 	c15Digests(c, r, reg)
 	c15Math(c, r, reg)
 	c15Regex(c, r)
+	c15FormatterVerbs(c, r)
+	c15ByteOffsets(c, r)
 }
 
 // ---- R15.1 -------------------------------------------------------------------
